@@ -25,7 +25,7 @@ ITERATING_KINDS = {'gen', 'map', 'zip', 'range_iter', 'set_iter', 'list_iter', '
 INJ.install()
 
 EXPRS = ['n', 'n + 1', 'a', 'h1', 'str(h1)', 'len(h2)', 'undefined_name', '1/0', 'n +', 'h1.nope', 'raise_base()',
-         'G_INT', 'g_helper(n)', 'self', 'h2[0]', "{'k': n}", 'err', 'ERRS[-1]', 'ERRS[0]', 'ERRS[0]']
+         'G_INT', 'g_helper(n)', 'self', 'h2[0]', "{'k': n}", 'err', 'ERRS[-1]', 'ERRS[0]', 'ERRS[0]', 'z1', '[z1]']
 CONDS = [None, None, 'True', 'n >= 0', 'n > 100', '1/0', 'raise_base()', 'undefined', 'h1']
 ALL_KINDS = (values.SCALAR_KINDS + values.CONTAINER_KINDS + values.NODICT_KINDS + values.HOSTILE_KINDS +
              ['mailbox', 'gen', 'map', 'zip', 'list_iter', 'mailbox'] * 4)
@@ -49,7 +49,11 @@ class C01(Prop):
                    'internal faults are Exception subclasses; BaseException only from host dunders, expressions, plugins',
                    'fault points cover the functions of %d anchored modules reached in the dry run; the handler entry '
                    'itself is excluded (a fault must be inside it to be containable)' % len(faults.MODULES),
-                   'near-recursion-limit programs are not generated']
+                   'near-recursion-limit programs are not generated',
+                   'finalisers: a function binds at most one finalisable local, once, and the claim is that it is '
+                   'finalised when the invocation ends, as without the agent; when a value that is rebound inside an '
+                   'invocation dies, and the order in which two locals die at frame exit, cannot be preserved by any '
+                   'trace function that reads frame.f_locals (CPython <= 3.12 keeps that snapshot dict on the frame)']
     quick_examples = 500
     thorough_examples = 1500
     floors = {'tp_reached': 0.5, 'fault_fired': 0.25, 'hostile_in_scope': 0.15, 'plugin_fault': 0.1,
@@ -216,18 +220,28 @@ def run_case(self, recipe):
 
     def judge(res, handler, label, fired):
         obs = res.observation()
+        if fired:
+            # an internal failure is logged; the logging module asks for threading.current_thread(), which - on the last
+            # events of a thread that threading has already forgotten - creates a placeholder thread object.  That is
+            # the standard library's doing at the moment of an (injected) internal error, not something the statement
+            # holds the agent to: placeholder threads are compared in the runs without an injected fault only.
+            obs = dict(obs, log=[x for x in obs['log'] if not (x and x[0] == 'placeholder-threads-left')])
+            ref = dict(obs0, log=[x for x in obs0['log'] if not (x and x[0] == 'placeholder-threads-left')])
+        else:
+            ref = obs0
         if res.deadlock:
             out.violate('%s: host program hangs (%s)' % (label, res.deadlock), {'fired': fired})
             return False
         if res.agent_leak:
             out.violate('%s: exception from agent code reached the program: %s' % (label, res.agent_leak))
             return False
-        if obs != obs0:
-            what = 'result' if obs['result'] != obs0['result'] else 'exception' if obs['exc'] != obs0['exc'] else \
-                'output' if obs['log'] != obs0['log'] else 'thread results'
-            leak = obs['exc'][0] if obs['exc'] and obs['exc'] != obs0['exc'] else ''
+        if obs != ref:
+            what = 'result' if obs['result'] != ref['result'] else 'exception' if obs['exc'] != ref['exc'] else \
+                'output' if obs['log'] != ref['log'] else 'thread results'
+            leak = obs['exc'][0] if obs['exc'] and obs['exc'] != ref['exc'] else ''
             out.violate('%s: program %s differs from the agent-free run %s' % (label, what, leak),
-                        {'base': _short(obs0), 'with_agent': _short(obs), 'fired': fired})
+                        {'base': _short(ref), 'with_agent': _short(obs), 'fired': fired,
+                         'first_difference': _first_diff(ref, obs)})
             return False
         for th, tr in res.trace_after.items():
             if tr != handler.trace_call:
@@ -287,6 +301,16 @@ def _flat(body):
             if isinstance(part, list) and part and isinstance(part[0], list):
                 for x in _flat(part):
                     yield x
+
+
+def _first_diff(a, b):
+    for k in ('result', 'exc', 'threads'):
+        if a[k] != b[k]:
+            return [k, repr(a[k])[:150], repr(b[k])[:150]]
+    for i, (x, y) in enumerate(zip(a['log'], b['log'])):
+        if x != y:
+            return ['log[%d]' % i, repr(x)[:150], repr(y)[:150]]
+    return ['log length', len(a['log']), len(b['log'])]
 
 
 def _short(obs):
